@@ -6,7 +6,7 @@ regex rules, loop invariants by loop ordinal); each is counted and reported.
 
 Directive grammar (each on its own line, inside the template):
   //@extract id=<id> file=<path under /repo> item="<fn NAME | struct NAME | enum NAME | const NAME | type NAME>"
-             [within="<impl header prefix>"] [props=C01+C03] [closure="<regex>"]
+             [within="<impl header prefix>"] [props=C01+C03] [closure="<regex>"] [after="<regex>": the item following its first match]
              (closure=: lift the block closure that follows the regex inside that fn; //@sig names what it captures)
   //@expect <original signature, whitespace-normalised, up to the body>   (lost anchor if different)
   //@sig <replacement signature>                                          (rules X1/X3/X4/X6/X7)
@@ -63,7 +63,7 @@ def parse_kv(s):
     return out
 
 
-def locate_item(src, mask, item, within):
+def locate_item(src, mask, item, within, after=None):
     """Return (start_idx_of_item_incl_attrs, sig_start, body_open_idx, end_idx_exclusive)."""
     kind, name = item.split(None, 1)
     lo, hi = 0, len(src)
@@ -93,6 +93,13 @@ def locate_item(src, mask, item, within):
         "trait": r"\btrait\s+" + re.escape(name) + r"\b",
     }[kind]
     pos = lo
+    if after:
+        # `after="regex"`: the item that follows the first match of the regex (e.g. a #[cfg(..)] line that
+        # selects one of several same-named items)
+        am = rscan.find_code(src, mask, after, lo, hi) or re.compile(after).search(src, lo, hi)
+        if not am:
+            raise Undecided(f"lost anchor: no /{after}/ before `{item}`")
+        pos = am.end()
     while True:
         mm = rscan.find_code(src, mask, pat, pos, hi)
         if not mm:
@@ -310,7 +317,7 @@ def generate(unit):
             t = read(path)
             cache[path] = (t, rscan.code_mask(t))
         src, mask = cache[path]
-        item_start, sig_start, b, end = locate_item(src, mask, kv["item"], kv.get("within"))
+        item_start, sig_start, b, end = locate_item(src, mask, kv["item"], kv.get("within"), kv.get("after"))
         kind = kv["item"].split()[0]
         if kv.get("closure"):
             # closure lifting: the block of the closure that follows /closure-regex/ inside the located fn
